@@ -1,6 +1,7 @@
 import FuModel.Find.Run
 import FuModel.Spec.ExprRef
 import FuModel.Spec.WalkRef
+import FuModel.Spec.PrintfRef
 
 /-!
 # Reference run of find (used by the property predicates of C01, C02, C03, C07, C18)
@@ -66,6 +67,7 @@ structure RefRes where
   out : Bytes
   ret : Nat
   diags : Nat
+  unspec : Bool := false
   deriving Repr
 
 /-! ### reference for the -exec actions (C08, C09) -/
@@ -139,6 +141,12 @@ def semRef (start : Bytes) (v : Visit Attr) (p : Prim) (s : ES) : Bool × ES :=
       | none => false), s)
   | .samefile dev ino => ((match recordSpecR v with | some (_, r) => r.dev == dev && r.ino == ino | none => false), s)
   | .lname l => ((match recordSpecR v with | some (t, _) => t == 'l' && (attrOf v).target == l | none => false), s)
+  | .printf _ raw =>
+    (match FuModel.Spec.PrintfRef.specParse (raw.length + 1) raw with
+     | some (cs, u) =>
+       let r := FuModel.Spec.PrintfRef.specRender start v cs
+       (true, { s with gs := { s.gs with out := s.gs.out ++ r.1, unspec := s.gs.unspec || u || r.2 } })
+     | none => (true, { s with gs := { s.gs with unspec := true } }))
   | .delete =>
     -- the reference only records where the action is reached: the path, then (for a real
     -- directory, marked by cwd = some []) the paths of its entries
@@ -172,7 +180,7 @@ def refRunX (follow : Follow) (roots : List (Bytes × Option (Node Attr))) (args
   | none => none
   | some l =>
     let r := refRootsX (refCfg c) c.sorted l roots ⟨{ script := script }, 0, 0⟩
-    some (⟨r.st.out, r.ret, r.diags⟩, r.st.execs)
+    some (⟨r.st.out, r.ret, r.diags, r.st.unspec⟩, r.st.execs)
 
 /-- reference run without exec scripts -/
 def refRun (follow : Follow) (roots : List (Bytes × Option (Node Attr))) (args : List Arg) : Option RefRes :=
@@ -184,7 +192,7 @@ def predFind (follow : Follow) (roots : List (Bytes × Option (Node Attr))) (arg
     (obsSt : Nat) (obsOut : Bytes) : Bool :=
   match refRun follow roots args with
   | none => obsSt != 0 && obsOut.isEmpty
-  | some r => obsOut == r.out && ((obsSt == 0) == (r.ret == 0))
+  | some r => r.unspec || (obsOut == r.out && ((obsSt == 0) == (r.ret == 0)))
 
 /-- records of an output stream: NUL-terminated if a NUL occurs, else newline-terminated -/
 def records (out : Bytes) : List Bytes :=
